@@ -18,6 +18,13 @@ fn initial(kind: &str) -> Option<Vec<u8>> {
         "keyring-comments" => Some(format!("# my keys\n\n{}\n# end\n", base).into_bytes()),
         "keyring-crlf" => Some(base.replace('\n', "\r\n").into_bytes()),
         "keyring-crlf-no-nl" => Some(base.replace('\n', "\r\n").trim_end_matches('\n').as_bytes().to_vec()),
+        // an address book that is already large (more than 2^16 bytes / more than 2^17 bytes): 900 / 1700 public-only peers
+        "big-64k" | "big-128k" => {
+            let n = if kind == "big-64k" { 900 } else { 1700 };
+            let mut t = String::from("# address book\n");
+            for i in 0..n { let mut k = [0x42u8; 32]; k[0] = i as u8; k[1] = (i >> 8) as u8; t.push_str(&format!("[Key]\nName = peer {:04}\nPublicKey = {}\n\n", i, crate::props::c17::enc_pk(&k))); }
+            Some(format!("{}{}", t, base).into_bytes())
+        }
         _ => Some(b"# only a comment\n".to_vec()),
     }
 }
@@ -26,7 +33,7 @@ impl Prop for C14 {
     fn id(&self) -> &'static str { "C14" }
     fn rule(&self) -> String {
         "real binary: histories of 1..5 (thorough 1..12) `key generate -o F` commands with distinct names (ASCII, with spaces, UTF-8, 128 bytes) and passwords (empty, ASCII, UTF-8) over initial states of F \
-         {absent, empty, keyring with / without trailing newline, with comments, CRLF line ends, comment only}; after every command: previous contents are a byte prefix of the new contents, the file parses (Keyring::new and the Lean parser agree on the entries), \
+         {absent, empty, keyring with / without trailing newline, with comments, CRLF line ends, comment only, an address book of 900 (thorough: 1700) public-only peers = more than 64 KiB (128 KiB)}; after every command: previous contents are a byte prefix of the new contents, the file parses (Keyring::new and the Lean parser agree on the entries), \
          all earlier entries are still there in order followed by the new one; at the end every generated key is used for an encrypt/decrypt round trip with its own password. non-trivial = distinct (initial state, history)".into()
     }
     fn cases(&self, tier: &str, seed: u64) -> Vec<Case> {
@@ -36,6 +43,7 @@ impl Prop for C14 {
         for init in ["absent", "empty", "keyring-nl", "keyring-no-nl", "keyring-comments", "keyring-crlf", "keyring-crlf-no-nl", "comment-only"] {
             for n in if th { vec![1usize, 2, 3, 5, 12] } else { vec![1usize, 2, 4] } { v.push(case(&[("init", init.into()), ("n", n.to_string()), ("seed", rng.next().to_string())])); }
         }
+        for init in ["big-64k", "big-128k"] { if th || init == "big-64k" { v.push(case(&[("init", init.into()), ("n", "2".into()), ("seed", rng.next().to_string())])); } }
         v
     }
     fn run(&self, c: &Case, m: &mut Model) -> Outcome {
